@@ -84,4 +84,21 @@ def check_C12(tier, seed):
 
 MODEL_C12 = True
 
-CHECKS = {"C12": check_C12, "C09": check_C09, "C04": check_C04, "C01": check_C01, "C02": check_C02, "C03": check_C03, "C08": check_C08}
+def check_C17(tier, seed):
+    t0 = time.time()
+    z = sizes(tier)
+    for p in ("debug", "release"): build_harness(p)
+    proof = prove("C17", ["Soa.Props.C17"])
+    sh = gen.ALL_SHAPES
+    L = min(z["L"], 4) if tier == "quick" else z["L"]
+    scs = (gen.vec_boundary(sh, L, with_masks=(tier != "quick")) + gen.vec_random(sh, z["nrand"], z["nops"], seed, p_invalid=0.25)
+           + gen.index_exhaustive(sh, L) + gen.trait_access(sh, min(L, 3))
+           + [gen.to_trait(s) for s in gen.vec_random(sh, z["nrand"] // 2, z["nops"], seed + 5)]
+           + gen.cap_scenarios(gen.CAP_SHAPES, z["nrand"] // 2, z["nops"], seed))
+    suites = [run_profile_diff("C17", scs)]
+    def widen():
+        yield run_profile_diff("C17", gen.vec_random(sh, 3000, 60, seed + 9, p_invalid=0.3) + gen.index_exhaustive(sh, 6), "widen")
+    return finish("C17", tier, seed, t0, "proof", proof, suites, [mon_c17], widen=widen)
+
+
+CHECKS = {"C17": check_C17, "C12": check_C12, "C09": check_C09, "C04": check_C04, "C01": check_C01, "C02": check_C02, "C03": check_C03, "C08": check_C08}
